@@ -45,7 +45,7 @@ func init() {
 			}
 			for k, v := range e.Failed {
 				m.Labels["failed-execution:"+k] += v
-				if len(k) > 0 && (containsStr(k, "gateway-forwarder(mode 1") || containsStr(k, "gateway-forwarder(mode 2") || containsStr(k, "gateway-forwarder(mode 3")) {
+				if len(k) > 0 && (containsStr(k, "gateway-forwarder(call,then 1") || containsStr(k, "gateway-forwarder(call,then 2") || containsStr(k, "gateway-forwarder(call,then 3")) {
 					failedFwd += v
 				}
 			}
@@ -54,6 +54,7 @@ func init() {
 				rej += v
 			}
 			m.Labels["balance-equations-checked"] += e.Sums
+			m.Labels["forwarder-calls-by-staticcall-or-delegatecall-judged"] += e.NonCall
 			return inc >= 5 && len(e.Included) >= 3 && failedFwd > 0 && rej > 0, nil
 		},
 	})
